@@ -48,6 +48,21 @@ class Pool:
         self.P12 = C.Prefixed(C.VarInt, C.GreedyRange(self.inner))
         self.P13 = C.Struct("u" / C.Union(0, "a" / C.Int16ub, "b" / C.Byte), "t" / C.Byte)
         self.P14 = C.Struct("c" / C.Const(b"\x07"), "o" / C.Optional(C.Const(b"\x08")), "p" / C.Peek(C.Byte), "v" / C.Byte)
+        # twins that differ only in signedness (a value valid for one is invalid for the other)
+        self.P15u = C.Bitwise(C.Struct("a" / C.BitsInteger(4), "b" / C.Nibble))
+        self.P15s = C.Bitwise(C.Struct("a" / C.BitsInteger(4, signed=True), "b" / C.Nibble))
+        self.P15bu = C.BytesInteger(1)
+        self.P15bs = C.BytesInteger(1, signed=True)
+        # recursion through LazyBound
+        self.P16 = C.Struct("value" / C.Byte, "next" / C.If(this.value > 0, C.LazyBound(lambda: self.P16)))
+        self.P16o = C.Struct("value" / C.Byte, "next" / C.Optional(C.LazyBound(lambda: self.P16o)))
+        # encodings that depend on the keyword context, under Const / Default / Rebuild
+        self.P17 = C.Const(0x0102, C.BytesInteger(2, swapped=this.le))
+        self.P18 = C.Struct("c" / C.Const(1, C.BytesInteger(2, swapped=this._params.le)), "d" / C.Default(C.BytesInteger(2, swapped=this._params.le), 0x0304), "e" / C.Byte)
+        # the same region construct used for payloads of different length
+        self.P19 = C.Prefixed(C.Byte, C.GreedyBytes)
+        self.P19s = C.Array(2, C.PascalString(C.Byte, "utf8"))
+        self.P19c = C.Struct("z" / C.Prefixed(C.Byte, C.Compressed(C.GreedyBytes, "zlib")), "t" / C.Byte)
         self.objects = {k: v for k, v in vars(self).items() if k.startswith("P") or k in ("inner", "enum")}
 
 
@@ -123,6 +138,33 @@ def calls():
     c["P14.parse with optional"] = P("P14", b"\x07\x08\x09")
     c["P14.parse without"] = P("P14", b"\x07\x09")
     c["P14.parse bad const"] = P("P14", b"\x06\x09")
+    for tw in ("P15u", "P15s"):
+        for a in (12, 7, -4, 8, 15, 16):
+            c["%s.build a=%d" % (tw, a)] = B(tw, dict(a=a, b=1))
+        c["%s.parse" % tw] = P(tw, b"\xc1")
+    for tw in ("P15bu", "P15bs"):
+        for a in (200, 127, 128, -1, -128, 255):
+            c["%s.build %d" % (tw, a)] = B(tw, a)
+    c["P16.parse shallow"] = P("P16", b"\x02\x01\x00")
+    c["P16.parse truncated"] = P("P16", b"\x03\x02\x01")
+    c["P16.parse long truncated"] = P("P16", bytes(range(60, 0, -1)))
+    c["P16.build"] = B("P16", dict(value=2, next=dict(value=1, next=dict(value=0, next=None))))
+    c["P16.build bad"] = B("P16", dict(value=2, next=dict(value=1, next=dict(value=300, next=None))))
+    c["P16o.parse"] = P("P16o", b"\x01\x02\x03")
+    c["P16o.parse long"] = P("P16o", bytes(40))
+    for le in (False, True):
+        c["P17.build le=%s" % le] = B("P17", None, le=le)
+        c["P17.parse le=%s" % le] = P("P17", b"\x01\x02", le=le)
+        c["P18.build le=%s" % le] = B("P18", dict(e=9), le=le)
+        c["P18.parse le=%s" % le] = P("P18", b"\x00\x01\x03\x04\x09", le=le)
+    c["P19.build long"] = B("P19", b"abcdef")
+    c["P19.build short"] = B("P19", b"xy")
+    c["P19.build empty"] = B("P19", b"")
+    c["P19.parse"] = P("P19", b"\x02ab")
+    c["P19s.build long,short"] = B("P19s", ["hello", "hi"])
+    c["P19s.build short,long"] = B("P19s", ["a", "bcdef"])
+    c["P19c.build long"] = B("P19c", dict(z=bytes(200), t=1))
+    c["P19c.build short"] = B("P19c", dict(z=b"", t=1))
     c["VarInt.parse"] = lambda p: p.C.VarInt.parse(b"\xac\x02")
     c["VarInt.build"] = lambda p: p.C.VarInt.build(300)
     c["VarInt.build bad"] = lambda p: p.C.VarInt.build(-1)
@@ -141,9 +183,11 @@ def do(pool, f):
 
 # --------------------------------------------------------------------------- fingerprint
 
-def fingerprint(pool):
-    """deep structural hash of everything a call could leave behind: instance attributes of every pool construct (through
-    subcons, dicts, lists), data globals of the construct modules, data attributes of its classes"""
+def fingerprint(pool, aux=False):
+    """deep structural hash of the construct objects a call could mutate: instance attributes of every pool construct (through
+    subcons, dicts, lists), the module-level construct singletons, data attributes of the construct classes.
+    aux=True: hash of the remaining module-level data (tables, memo dictionaries) instead - a change there is not by itself a
+    violation (a correct memo is allowed), it is recorded and the histories decide"""
     h = hashlib.blake2b(digest_size=16)
     seen = {}
     def feed(s):
@@ -202,9 +246,10 @@ def fingerprint(pool):
                 walk(d[k], depth + 1)
             return
         feed("other:" + type(o).__name__)
-    for name in sorted(pool.objects):
-        feed("POOL:" + name)
-        walk(pool.objects[name])
+    if not aux:
+        for name in sorted(pool.objects):
+            feed("POOL:" + name)
+            walk(pool.objects[name])
     C = pool.C
     mods = [m for n, m in sorted(sys.modules.items()) if n == "construct" or n.startswith("construct.")]
     for m in mods:
@@ -214,6 +259,8 @@ def fingerprint(pool):
             if isinstance(v, (types.FunctionType, types.ModuleType, types.BuiltinFunctionType)) or k.startswith("__"):
                 continue
             if isinstance(v, type):
+                if aux:
+                    continue
                 if getattr(v, "__module__", "").startswith("construct"):
                     feed("CLASS:" + k)
                     for ak in sorted(vars(v)):
@@ -222,6 +269,9 @@ def fingerprint(pool):
                             continue
                         feed(ak)
                         walk(av)
+                continue
+            is_construct_object = isinstance(v, C.Construct) or isinstance(v, C.ExprMixin if hasattr(C, "ExprMixin") else ())
+            if is_construct_object == aux:
                 continue
             feed(k)
             walk(v)
@@ -235,6 +285,8 @@ def units(tier):
     us = []
     for i in range(0, len(names), 4):
         us.append({"kind": "history", "first": names[i:i + 4]})
+    for i in range(0, len(names), 8):
+        us.append({"kind": "fresh", "names": names[i:i + 8]})
     for i, pair in enumerate(thread_pairs()):
         us.append({"kind": "schedule", "pair": i})
     ts = entry_terms()
@@ -264,8 +316,11 @@ def run_history(unit, tier, r):
         # single call: result + fingerprint closure
         p = Pool()
         fp_before = fingerprint(p)
+        aux_before = fingerprint(p, aux=True)
         res = do(p, cs[first])
         fp_after = fingerprint(p)
+        if fingerprint(p, aux=True) != aux_before:
+            r.extra["module-level-data-changed-by:" + first.split(" ")[0]] += 1
         r.state("fp:" + fp_after)
         r.case(key=("h1", first), nontrivial=False, outcome="single", transitions=1, validated=1)
         if fp_after != fp_before:
@@ -550,9 +605,43 @@ def same_res(a, b):
     return a[1:] == b[1:]
 
 
+def fresh_result(name):
+    """the call in a brand-new interpreter (nothing has run before it in that process)"""
+    import subprocess
+    code = ("import sys; sys.path.insert(0, %r)\n"
+            "from mc.engine import load_construct; load_construct()\n"
+            "from mc.props import c17\n"
+            "print('RESULT ' + repr(c17.do(c17.Pool(), c17.calls()[%r])))\n") % (os.path.dirname(os.path.dirname(os.path.dirname(os.path.abspath(__file__)))), name)
+    env = dict(os.environ, PYTHONHASHSEED="0")
+    p = subprocess.run([sys.executable, "-c", code], env=env, stdout=subprocess.PIPE, stderr=subprocess.PIPE, text=True, timeout=120)
+    for line in p.stdout.splitlines():
+        if line.startswith("RESULT "):
+            return line[7:]
+    raise RuntimeError("fresh interpreter for %r produced no result: %s" % (name, p.stderr[-400:]))
+
+
+def run_fresh(unit, tier, r):
+    """process history: the result of every call in a brand-new interpreter equals its result in this long-lived worker, which has
+    executed the whole call alphabet (and other units) before - whatever module-level tables the library keeps"""
+    cs = calls()
+    pristine_results()          # make sure every call has run at least once in this process
+    for name in unit["names"]:
+        r.states += 1
+        fresh = fresh_result(name)
+        here = repr(do(Pool(), cs[name]))
+        r.case(key=("fresh", name), nontrivial=True, outcome="fresh-vs-warm", transitions=2, validated=1)
+        if fresh != here:
+            r.violation("C17/result-depends-on-history/" + name.split(" ")[0], {"fresh": name},
+                        "%r gives %s in a brand-new interpreter and %s in a process that has executed the other calls before" % (name, fresh, here))
+    r.sample({"fresh_interpreter_calls": unit["names"]})
+
+
 def run_unit(unit, tier):
     r = UnitResult()
     k = unit["kind"]
+    if k == "fresh":
+        run_fresh(unit, tier, r)
+        return r
     if k == "history":
         r.export_states = True
         run_history(unit, tier, r)
@@ -565,6 +654,9 @@ def run_unit(unit, tier):
 
 def replay(case):
     r = UnitResult()
+    if "fresh" in case:
+        run_fresh({"names": [case["fresh"]]}, "quick", r)
+        return r.violations
     if "history" in case:
         cs = calls()
         base = pristine_results()
